@@ -198,6 +198,9 @@ def _no_iteration_ran(p: Path) -> bool:
             if not mut:
                 continue
             apps = {e.recv for e in bp.events if e.kind == "call" and e.name == "append" and e.recv is not None and e.recv[0] == "sym"}
+            # the list the loop runs over is such a witness too: `for o in L: queue.remove(o)` ... `if len(L) > 0: heapify`
+            if l.iter is not None:
+                apps = apps | {strip_ver(l.iter)}
             companions = apps if companions is None else (companions & apps)
     if not companions:
         return False
